@@ -80,6 +80,15 @@ CLAIMED: dict[str, tuple[str, str, str, str]] = {
             "Precedence asserted only when every present carrier sets the option; effective value identified "
             "by equality with a reference run (references must be pairwise distinct: TakesEffect).",
             TECH),
+    "C09": ("DESIGN.md §5 C09",
+            "spec/Paths.tla enumerates placements (19 parent-directory names: every always-excluded name, "
+            "test/ignore marker names, the project's own name; 5 working directories incl. a foreign git "
+            "checkout; 6 spellings) and models where the code looks at the path as spelled (layer B flags, "
+            "non-vacuity run of the pinned commit); every placement x all 20 commands is executed and compared "
+            "with the reference placement; PathsTrace.tla judges each record.",
+            "Project marked by .thailint.yaml only; message paths normalised by removing the project prefix as "
+            "spelled; a parent literally named .git is excluded (it legitimately is a project-root marker).",
+            TECH),
 }
 
 REASON_NOT_YET = ("no check registered yet in this build; the TLA+ technique applies (see DESIGN.md §5) "
